@@ -300,15 +300,16 @@ func c17Entry(c *Ctx) {
 		return
 	}
 	filePath := pm.Params[1]
-	gMatch, nM := core.CondEdges(pm, func(at core.Atom) (bool, bool) {
+	isMatch := func(at core.Atom) (bool, bool) {
 		if at.Op == token.ILLEGAL && core.IsCallResult(at.Base, 0, "path/filepath.Match") {
 			call, _, _ := core.CallResult(at.Base)
-			if len(call.Common().Args) == 2 && call.Common().Args[1] == ssa.Value(filePath) {
+			if len(call.Common().Args) == 2 && core.ResolveCellLoad(call.Common().Args[1]) == ssa.Value(filePath) {
 				return true, true
 			}
 		}
 		return false, false
-	})
+	}
+	gMatch, nM := core.CondEdges(pm, isMatch)
 	mayTrue := func(in ssa.Instruction) bool {
 		ret, ok := core.AsReturn(in)
 		if !ok || len(ret.Results) != 1 {
@@ -317,7 +318,23 @@ func c17Entry(c *Ctx) {
 		b, isC := core.ConstBool(core.ResolveLocalLoad(core.Res(ret, 0)))
 		return !isC || b
 	}
-	off, ns := core.UnguardedSinks(pm, mayTrue, gMatch)
+	// a returned value that is itself true only after a successful match (slices.ContainsFunc over a literal that
+	// returns the match result) is not a way to return true without a match
+	mayTrueNoMatch := func(in ssa.Instruction) bool {
+		if !mayTrue(in) {
+			return false
+		}
+		ret, _ := core.AsReturn(in)
+		if core.LiftPredicate(core.Res(ret, 0), isMatch) {
+			nM++
+			return false
+		}
+		return true
+	}
+	off, ns := core.UnguardedSinks(pm, mayTrueNoMatch, gMatch)
+	if ns == 0 && nM > 0 {
+		ns = 1
+	}
 	r.Check(nM > 0 && ns > 0 && len(off) == 0, "C17-D2", "pathMatchesAny:true-only-on-match", p.FnPos(pm),
 		"pathMatchesAny returns true only after filepath.Match(pattern, path) succeeded (so never with an empty pattern list)",
 		"pathMatchesAny can return true without a successful filepath.Match on the given path", traceOf(p, off)...)
@@ -328,7 +345,8 @@ func c17Entry(c *Ctx) {
 		isNorm := func(v ssa.Value) bool {
 			return core.IsCallResult(v, 0, "path/filepath.Abs") || core.IsCallResult(v, -1, "path/filepath.Clean")
 		}
-		if (isNorm(at.Base) && at.Other == ssa.Value(filePath)) || (isNorm(at.Other) && at.Base == ssa.Value(filePath)) {
+		base, other := core.ResolveCellLoad(at.Base), core.ResolveCellLoad(at.Other)
+		if (isNorm(base) && other == ssa.Value(filePath)) || (isNorm(other) && base == ssa.Value(filePath)) {
 			return true, at.Op == token.EQL
 		}
 		return false, false
@@ -427,6 +445,6 @@ func c17Patterns(c *Ctx) {
 	// each configured pattern is validated with filepath.Match in New
 	nf := p.Fn("filtering.New")
 	if nf != nil {
-		r.Check(len(core.CallsTo(nf, "path/filepath.Match")) > 0, "C17-D4", "patterns-validated", p.FnPos(nf), "configured patterns are validated with filepath.Match", "configured patterns are no longer validated (a bad pattern makes pathMatchesAny panic)")
+		r.Check(len(core.CallsToDeep(nf, "path/filepath.Match")) > 0, "C17-D4", "patterns-validated", p.FnPos(nf), "configured patterns are validated with filepath.Match", "configured patterns are no longer validated (a bad pattern makes pathMatchesAny panic)")
 	}
 }
